@@ -356,22 +356,24 @@ type atomInst struct {
 }
 
 type prover struct {
-	w      *World
-	fn     *ssa.Function
-	site   ssa.Instruction
-	insts  map[string][]*atomInst
-	facts  []Fact
-	done   map[string]bool // intrinsic facts already added, by atom name
-	cache  map[ssa.Value]Lin
-	lemmas map[string]bool // lemma names used
-	depth  int
-	phis   map[string]*ssa.Phi // atom name → phi
-	calls  map[string]*ssa.Call
-	vals   map[string]ssa.Value
-	notes  []string
-	inInd  map[*ssa.Phi]bool
-	neqs   []neq
-	conds  []condPost // conditional postconditions: when `when >= 0` is entailed, `then` hold
+	edgeCond ssa.Value // the branch condition of the CFG edge the proof is about (induct), with its polarity
+	edgePol  bool
+	w        *World
+	fn       *ssa.Function
+	site     ssa.Instruction
+	insts    map[string][]*atomInst
+	facts    []Fact
+	done     map[string]bool // intrinsic facts already added, by atom name
+	cache    map[ssa.Value]Lin
+	lemmas   map[string]bool // lemma names used
+	depth    int
+	phis     map[string]*ssa.Phi // atom name → phi
+	calls    map[string]*ssa.Call
+	vals     map[string]ssa.Value
+	notes    []string
+	inInd    map[*ssa.Phi]bool
+	neqs     []neq
+	conds    []condPost // conditional postconditions: when `when >= 0` is entailed, `then` hold
 
 	foundLookups map[*ssa.Lookup]bool
 	depthSum     int
